@@ -28,7 +28,7 @@ CLAIMED = {
 		'Decides the shape clauses of "only Errors.Error escapes": third-party parser boundary on both branches, Procedure handler ladder and assert enclosure, no un-overridden NotImplementedError member on dispatchable classes, no index()==-1 belief, every explicit raise on the pipeline is an Errors.* class (frozen exceptions with reasons), interactive loop/top-level catches. Implicit exceptions and termination are not decided.',
 		'explicit raise sites and boundaries only; implicit KeyError/IndexError are out of static reach', 'DESIGN.md §4 C07'),
 	'C08': ('other', 'intraprocedural taint lint: separator anchoring of prefix/suffix/substring/length tests on identifier-carrying strings, frozen triage',
-		'Decides that no decision in the scanned pipeline files depends on a prefix/suffix/substring/length relation of user-chosen identifiers (the mechanism the property names). Every tainted sink is anchored on a separator, compares whole elements, or is listed with a reason; the same for name substitutions, prefix tests and substring queries inside the Jinja templates (F19 known); the spelling-defined visibility table (to_accessor) is evaluated on sample spellings against Python's convention. The metamorphic relation itself is not decided.',
+		'Decides that no decision in the scanned pipeline files depends on a prefix/suffix/substring/length relation of user-chosen identifiers (the mechanism the property names). Every tainted sink is anchored on a separator, compares whole elements, or is listed with a reason; the same for name substitutions, prefix tests and substring queries inside the Jinja templates (F19 known); the spelling-defined visibility table (to_accessor) is evaluated on sample spellings against the convention of Python. The metamorphic relation itself is not decided.',
 		'taint is intraprocedural with attribute/parameter sources; grammar-tag paths are not name-carrying', 'DESIGN.md §4 C08'),
 	'C09': ('other', 'abstract interpretation list/single over property bodies vs run-time-visible annotation; handler-signature join with Node.prop_keys recomputed statically; Procedure shape obligations; grammar-production emptiness',
 		'Decides the contract between the value-driven flattening and the annotation-driven popping for all 102 expandable properties and 183 handlers of the three Procedure clients, exhaustively; plus metadata-key unambiguity, one-result-per-node shape of Procedure, and that the raw-descendant fallback cannot fire for classes with properties.',
